@@ -45,10 +45,17 @@ def demo_command(meta):
     m = re.search(r'RUSTFLAGS=(?:"([^"]*)"|\'([^\']*)\'|(\S+))', first)
     if m:
         env["RUSTFLAGS"] = m.group(1) or m.group(2) or m.group(3)
-    m = re.search(r"cargo\s+((?:run|test)\b[^&;|]*)", first)
+    m = re.search(r"cargo\s+((?:\+nightly\s+)?(?:miri\s+)?(?:run|test)\b[^&;|]*)", first)
     argv = ["cargo"] + (m.group(1).split() if m else ["run", "--offline"])
+    # we run inside the demo directory: a manifest path relative to the agent's worktree is dropped
+    if "--manifest-path" in argv:
+        i = argv.index("--manifest-path")
+        del argv[i:i + 2]
     if "--offline" not in argv:
         argv.append("--offline")
+    m = re.search(r"^\s*(sh|bash)\s+(\S+run\.sh)", first)
+    if m:
+        argv = [m.group(1), os.path.basename(m.group(2))]
     return env, argv
 
 
